@@ -148,6 +148,14 @@ def check_wrap(cfg, crate, rep):
         keyed = any(p.startswith("self.kind") for p in places(a0))
         rep.ob("C01.wrap", key + "|sig-of-tbs|" + ",".join(vs), signed and keyed, "signature value is computed from the embedded TBS bytes with this key",
                found=sorted(rts), sp=node.get("sp"))
+        # ... and is the signer's output itself: nothing but the signing call, its error conversion, the random source and
+        # the buffer it fills may take part in computing the value that is written (no re-encoding, trimming, padding)
+        def _sig_ok(c_):
+            last_ = c_.split("::")[-1]
+            return last_ in ("sign", "sign_der", "_err", "map_err", "as_ref", "as_slice", "to_vec", "from_elem", "with_capacity", "new", "rsa_key_pair_public_modulus_len", "public_modulus_len", "public_key", "modulus_len", "deref", "into", "from", "clone", "as_mut_slice", "as_mut") \
+                and not c_.startswith(("yasna::", "pem::"))
+        extra_ = sorted(c_ for c_ in calls_of(a0) if not _sig_ok(c_))
+        rep.ob("C01.wrap", key + "|sig-is-signer-output|" + ",".join(vs), not extra_, "the BIT STRING holds exactly what the signer returned", found=extra_, sp=node.get("sp"))
         e = R._whole_bits(node["args"][1], I) if len(node["args"]) > 1 else "no length"
         if e is None:
             from interp import CallV as _C
